@@ -286,6 +286,89 @@ def run(repo, rep, tier):
                         rep.fail("R-C08-5", fi.file, a_.lineno, fi.qualname, unparse(a_)[:100],
                                  f"the target '{pn}' values are recomputed before they become the output coordinate: the result no longer carries "
                                  "exactly the requested coordinates (e.g. 360 comes back as 0, negative directions shifted)", anchor=f"regrid-target:{pn}")
+    # ... and the accessor wrappers hand the caller's targets on as they are: no definition of a target that depends on the source grid
+    from ..astutil import bound_args as _ba
+    for q in ("wavespectra.specarray.SpecArray.interp", "wavespectra.specarray.SpecArray.interp_like"):
+        f2 = repo.func(q)
+        calls_ = [c_ for c_ in ast.walk(f2.node) if isinstance(c_, ast.Call) and call_name(c_).split(".")[-1] in ("regrid_spec", "interp")]
+        b_ = next((x for x in (_ba(repo, f2, c_) for c_ in calls_) if x is not None), None)
+        if b_ is None:
+            raise AnalysisError(f"{f2.short}: forwarding call to the regridding routine not found")
+        for pn in ("freq", "dir"):
+            arg = b_.get(pn) or b_.get({"freq": freq, "dir": dirp}[pn])
+            if arg is None:
+                rep.fail("R-C08-5", f2.file, f2.node.lineno, f2.qualname, f"target {pn}", f"the requested {pn} coordinate is not handed to the regridding routine")
+                continue
+            if not isinstance(arg, ast.Name):
+                okexpr = not any(isinstance(x, ast.Name) and x.id == "self" for x in ast.walk(arg))
+                (rep.ok if okexpr else rep.fail)("R-C08-5", *((f"{f2.file}:{f2.node.lineno} {f2.short}", unparse(arg), "target expression does not involve the source")
+                                                        if okexpr else (f2.file, f2.node.lineno, f2.qualname, unparse(arg), "the target handed on depends on the source grid")))
+                continue
+            defs_ = []
+
+            def coll(stmts_, conds):
+                for st in stmts_:
+                    if isinstance(st, ast.If):
+                        coll(st.body, conds + [st.test])
+                        coll(st.orelse, conds + [st.test])
+                    elif isinstance(st, (ast.Assign, ast.AugAssign)) and any(isinstance(t_, ast.Name) and t_.id == arg.id for t_ in (st.targets if isinstance(st, ast.Assign) else [st.target])):
+                        defs_.append((st, conds))
+                    elif isinstance(st, (ast.For, ast.While, ast.With, ast.Try)):
+                        coll(getattr(st, "body", []), conds)
+            coll(f2.node.body, [])
+            bad_ = None
+            for st, conds in defs_:
+                dep_self = any(isinstance(x, ast.Name) and x.id == "self" for c_ in conds + [st.value] for x in ast.walk(c_))
+                # filling in a default for an absent target is not a redefinition:  if freq is None: freq = self.freq
+                is_default = bool(conds) and all(isinstance(c_, ast.Compare) and len(c_.ops) == 1 and isinstance(c_.ops[0], ast.Is) and
+                                                 isinstance(c_.left, ast.Name) and c_.left.id == arg.id and
+                                                 isinstance(c_.comparators[0], ast.Constant) and c_.comparators[0].value is None for c_ in conds)
+                if dep_self and not is_default:
+                    bad_ = st
+            if bad_ is not None:
+                rep.fail("R-C08-5", f2.file, bad_.lineno, f2.qualname, unparse(bad_)[:100],
+                         f"the target '{arg.id}' is redefined depending on the source grid (e.g. dropped when it 'equals' the source): the result then "
+                         "keeps the source's coordinate values / order instead of exactly the requested ones", anchor=f"accessor-target:{f2.short}:{pn}")
+            else:
+                rep.ok("R-C08-5", f"{f2.file}:{f2.node.lineno} {f2.short}", f"{pn} -> {arg.id} ({len(defs_)} definition(s))", "the caller's target reaches the regridding routine unchanged")
+    # ---- the de-duplication keeps one representative of each direction --------------------------------------------
+    ui = repo.func("wavespectra.core.utils.unique_indices")
+    dedup = 0
+    for f2 in (ui, fi):
+        for c_ in ast.walk(f2.node):
+            if isinstance(c_, ast.Call) and isinstance(c_.func, ast.Attribute) and c_.func.attr == "drop_duplicates":
+                dedup += 1
+                kp = kwarg(c_, "keep")
+                kv = repo.const(f2.module, kp) if kp is not None else "first"
+                if kv not in ("first", "last"):
+                    rep.fail("R-C08-4", f2.file, c_.lineno, f2.qualname, unparse(c_)[:100],
+                             f"drop_duplicates(keep={kv!r}) removes EVERY member of a duplicated direction (0 and 360 both disappear): the "
+                             "de-duplication must keep one representative")
+                else:
+                    rep.ok("R-C08-4", f"{f2.file}:{c_.lineno} {f2.short}", unparse(c_)[:80], "keeps one representative per direction")
+            if isinstance(c_, ast.Call) and call_name(c_).split(".")[-1] == "unique" and kwarg(c_, "return_index") is not None:
+                dedup += 1
+                rep.ok("R-C08-4", f"{f2.file}:{c_.lineno} {f2.short}", unparse(c_)[:80], "first occurrence of each direction kept")
+    if not dedup:
+        raise AnalysisError("regrid_spec / unique_indices: de-duplication step not recognised")
+    # ---- the numpy regridding kernel: zero energy outside the source frequencies ---------------------------------
+    isf = repo.func("wavespectra.core.utils.interp_spec")
+    nint = 0
+    for c_ in ast.walk(isf.node):
+        if isinstance(c_, ast.Call) and call_name(c_) in ("np.interp", "numpy.interp"):
+            nint += 1
+            vals = {k: (repo.const(isf.module, kwarg(c_, k)) if kwarg(c_, k) is not None else "absent") for k in ("left", "right")}
+            if len(c_.args) >= 4:
+                vals["left"] = repo.const(isf.module, c_.args[3])
+            if len(c_.args) >= 5:
+                vals["right"] = repo.const(isf.module, c_.args[4])
+            if vals["left"] == 0 and vals["right"] == 0:
+                rep.ok("R-C08-2", f"{isf.file}:{c_.lineno} interp_spec", unparse(c_)[:90], "zero energy below and above the source frequencies")
+            else:
+                rep.fail("R-C08-2", isf.file, c_.lineno, isf.qualname, unparse(c_)[:110],
+                         f"np.interp(left={vals['left']}, right={vals['right']}): outside the source range np.interp repeats the end values by "
+                         "default, so target frequencies above the highest source frequency get the last bin's energy instead of zero")
+    rep.floor("R-C08-2", "np.interp calls in interp_spec", nint, 2)
     # ---- rotate ---------------------------------------------------------------------------------------
     rt = repo.func("wavespectra.specarray.SpecArray.rotate")
     Qp0 = repo.func(Q).params[0]
